@@ -6,6 +6,12 @@ from mc import env
 from mc.framework import Result
 from mc.model import content_bytes
 
+def _stable(t):
+    """A digest that does not depend on the per-process hash seed (evidence counts must be reproducible)."""
+    import zlib
+    return zlib.crc32(repr(t).encode('utf-8', 'surrogatepass'))
+
+
 PROP = 'C16'
 LEVEL = 'model_checking'
 ASSUMPTIONS = [
@@ -299,7 +305,7 @@ def run_task(task):
                                       'after the earlier scripts of this task: %s devs=%s: %s' % (script[:i + 1], devs, msg), case)
                         return res
                 else:
-                    res.add('outcomes', hash((variant, n, tuple(script[-1:]))) & 0xffffff)
+                    res.add('outcomes', _stable((variant, n, tuple(script[-1:]))) & 0xffffff)
     if not res.viol:
         res.sample({'variant': variant, 'n': n, 'script': [list(o) for o in [first] + [ops[1]] * (L - 1)], 'devs': []})
     return res
